@@ -141,6 +141,7 @@ impl TCheck for C01 {
                 }),
                 record_events: false,
                 hard_fault: false,
+                one_cpu: false,
             };
         }
         let comp = *rng.pick(&[
@@ -257,6 +258,7 @@ impl TCheck for C01 {
                 }),
                 record_events: false,
                 hard_fault: false,
+                one_cpu: false,
             }
         } else {
             let w = Arc::new(Work {
@@ -284,6 +286,7 @@ impl TCheck for C01 {
                 }),
                 record_events: false,
                 hard_fault: false,
+                one_cpu: false,
             }
         }
     }
